@@ -92,6 +92,8 @@ class FGen:
         # in 4 cases of 10 the eliminable-looking equalities are over a difference, (= (- A B) 0): nothing to eliminate with
         self.minus_eq = bool(ft.get("nested_monomials")) and ch.side("minus-eq").flag(0.4)
         self.comp = ch.side("companion")
+        self.dup = ch.side("same-term-twice")
+        self.neg = ch.side("negative-coefficient")
         # in 3 cases of 10 the quantified variables are named like a parameter plus a letter (?xz next to ?x)
         self.qvars = QVARS_LONG if ch.side("qvars").flag(0.3) else QVARS
 
@@ -166,7 +168,7 @@ class FGen:
             b = ch.choice(["2", "4", "0.5", "-2", "5"]) if ch.flag(0.7) else (self.fterm(scope) or "2")
         else:
             b = self.expr(scope, depth - 1)
-            if self.comp.flag(0.15):
+            if self.dup.flag(0.15):
                 # the same function term twice in one expression, (* (f ?x) (f ?x)) or (+ (- (f ?x) 1) (f ?x))
                 fl = self.first_fluent(a)
                 if fl is not None:
@@ -223,14 +225,14 @@ class FGen:
                 def mono(t):
                     c1 = ch.choice(["0.29", "0.57", "0.07", "1.13", "0.5", "2.25", "0.35", "1.1"])
                     c2 = ch.choice(["100", "10", "2", "5", "3", "100"])
-                    if self.comp.flag(0.3):
-                        c2 = self.comp.choice(["-2", "-10", "-1", "-5"])        # a negative coefficient
+                    if self.neg.flag(0.3):
+                        c2 = self.neg.choice(["-2", "-10", "-1", "-5"])        # a negative coefficient
                     return ch.choice([["*", ["*", t, c1], c2], ["*", c2, ["*", t, c1]], ["*", c1, ["*", t, c2]],
                                       ["*", t, c1], ["*", c2, t], t])
                 left = mono(ft)
-                if op != "=" and self.comp.flag(0.3) and left is not ft:
+                if op != "=" and self.neg.flag(0.3) and left is not ft:
                     # a lone product against a number, (<= (* -2 (f ?x)) -6)
-                    return [op, left, self.comp.choice(["-6", "3", "0", "2.5", "-1.5", "12"])]
+                    return [op, left, self.neg.choice(["-6", "3", "0", "2.5", "-1.5", "12"])]
                 return [op, left, mono(other)]
         if simple:
             rhs = self.number(True) if ch.flag(0.6) else (self.fterm(scope) or self.number(True))
@@ -283,7 +285,7 @@ class FGen:
             # an equality one could eliminate with is worth little alone: in 6 groups of 10 a comparison over one of
             # its two fluents stands next to it
             for x in list(out):
-                if x[0] == "=" and isinstance(x[1], list) and x[1][0] in ("+", "-") and self.comp.flag(0.6):
+                if x[0] == "=" and isinstance(x[1], list) and x[1][0] in ("+", "-") and self.comp.flag(0.75):
                     out.append([self.comp.choice(["<", "<=", ">", ">="]), x[1][self.comp.choice([1, 1, 2])],
                                 self.comp.choice(["3", "-3", "0", "1.5", "-0.25", "12"])])
         return out
